@@ -387,6 +387,8 @@ func concScripts(thorough bool) []*cscript {
 		// Bloom cache: calls racing Rebuild
 		{name: "bloom-rebuild-read", quick: true, cfg: "layer=bloom,pre=B", bg: "rebuild", threads: [][]string{{"Has B", "Get B"}}, final: []string{"Has B"}, delta: 2},
 		{name: "bloom-rebuild-put", quick: true, cfg: "layer=bloom,pre=B", bg: "rebuild", threads: [][]string{{"Put A0", "Has A1"}}, final: []string{"Has A0", "Has B"}, delta: 2},
+		// every kind of writer (Put above, PutMany, Delete below) races a full Rebuild; the backing write is a scheduling point
+		{name: "bloom-rebuild-putmany", quick: true, cfg: "layer=bloom,pre=B", bg: "rebuild", threads: [][]string{{"PutMany A0 C", "Has C"}}, final: []string{"Has A1", "Has C", "Has B"}, delta: 1},
 		{name: "bloom-rebuild-err", quick: true, cfg: "layer=bloom,pre=A0+B", bg: "rebuild!err@1", threads: [][]string{{"Put C", "Has C"}}, final: []string{"Has A0", "Has B", "Has C"}, delta: 2},
 		{name: "bloom-rebuild-cancel", cfg: "layer=bloom,pre=A0+B", bg: "rebuild!cancel@1", threads: [][]string{{"Put C"}}, final: []string{"Has A0", "Has B", "Has C"}, delta: 2},
 		{name: "bloom-rebuild2", cfg: "layer=bloom,pre=B", bg: "rebuild2", threads: [][]string{{"Put A0"}}, final: []string{"Has A0", "Has B"}},
@@ -407,6 +409,8 @@ func concScripts(thorough bool) []*cscript {
 		{name: "bloom-build+rebuild", cfg: "layer=bloom,pre=B", bg: "build+rebuild", threads: [][]string{{"Put A0", "Has A1"}}, final: []string{"Has A0", "Has B"}},
 		{name: "bloom-builderr+rebuild", cfg: "layer=bloom,pre=A0+B,build=err@1", bg: "build+rebuild", threads: [][]string{{"Put C", "Has B"}}, final: []string{"Has A0", "Has B", "Has C"}},
 		{name: "bloom3-rebuild", cfg: "layer=bloom,bh=3,view=0,pre=B", bg: "rebuild", threads: [][]string{{"Put A0", "View A1"}}, final: []string{"View A0", "View B"}, delta: 2},
+		{name: "bloom-build-putmany", cfg: "layer=bloom,pre=B", bg: "build", threads: [][]string{{"PutMany A0 C"}, {"Has C"}}, final: []string{"Has A1", "Has C", "Has B"}},
+		{name: "bloom-rebuild-putmany-2thr", cfg: "layer=bloom,bh=3,pre=B", bg: "rebuild", threads: [][]string{{"PutMany C A0"}, {"Get C", "Has A1"}}, final: []string{"Has A0", "Has C"}},
 		{name: "both-rebuild-putmany", cfg: "layer=both,tq=2,pre=B", bg: "rebuild", threads: [][]string{{"PutMany A0 C", "Has C"}}, final: []string{"Has A1", "Has B", "Has C"}, delta: 1},
 		{name: "both-rebuild-err", cfg: "layer=both,tq=64,pre=A0+B", bg: "rebuild!err@1", threads: [][]string{{"Delete A0", "Put A1"}, {"GetSize A0"}}, final: []string{"Has A0", "GetSize A1"}},
 		// constructor: HasTwoQueueCacheSize=1 makes lru.New2Q fail (ghost list of size 0); with a Bloom filter
